@@ -144,6 +144,14 @@ Theorem C11_registry_bad_entry_frame : forall ents snap n,
 Proof. exact registry_bad_entry_frame. Qed.
 Print Assumptions C11_registry_bad_entry_frame.
 
+(** an update storm: after any number of stores the live generation is the LAST one stored, and
+    the generations were live in the order in which they were stored (never backwards) *)
+Theorem C11_update_storm_last_wins : forall g0 gs,
+  mw_inst (mx_run (mx_init g0) (map LStore gs)) = last gs g0 /\
+  mw_hist (mx_run (mx_init g0) (map LStore gs)) = rev gs ++ [g0].
+Proof. exact update_storm_last_wins. Qed.
+Print Assumptions C11_update_storm_last_wins.
+
 (** * Soundness of the trace-level property checkers ([prop] of coq/model/ReloadCheck.v): what an
     accepted observed history - of any length, whatever produced it - satisfies, position by position.
     Non-vacuity: [pipe_prop_nonvacuous], [tc_prop_nonvacuous], [tcreal_reg_nonvacuous] in
